@@ -5,7 +5,7 @@ cd /verif
 [ -n "$(git -C /repo status --porcelain)" ] && { echo "/repo not clean"; exit 2; }
 DIRS="$@"; [ -z "$DIRS" ] && DIRS=$(ls -d /verif/seeded/*/)
 for d in $DIRS; do
-  d=${d%/}; n=$(basename $d); id=${n%%-*}
+  d=$(realpath ${d%/}); n=$(basename $d); id=${n%%-*}
   if ! git -C /repo apply $d/patch.diff 2>/dev/null; then git -C /repo apply --3way $d/patch.diff >/dev/null 2>&1 || { echo "$n: patch does not apply"; git -C /repo checkout -- . ; continue; }; fi
   out=$(./bin/gsa -property $id -tier quick -evidence /tmp/seed_detect_ev.json 2>&1); rc=$?
   git -C /repo reset -q --hard HEAD
